@@ -87,7 +87,8 @@ def file_backed(desc, names, rng):
     desc["touch_stores"] = touch
     desc["file_siblings"] = rng.random() < 0.4
     # store paths that are symbolic links (outputs kept on another disk): dangling until the first write
-    desc["file_symlinks"] = [nm for nm in sorted(names) if rng.random() < float(__import__("os").environ.get("VERIF_SYM", "0.25"))]
+    desc["file_symlinks"] = [nm for nm in sorted(names) if rng.random() < 0.25]
+    desc["file_symlink_loops"] = [nm for nm in desc["file_symlinks"] if rng.random() < 0.3]
 
 
 def _prefix(desc):
